@@ -260,4 +260,5 @@ class DataManipulationBot(Application, discriminator="data-manipulation-bot"):
 
         :param timestep: The timestep value to update the bot's state.
         """
-        pass
+        # the bot itself does nothing per tick, but installing and fixing it progress like for any application
+        super().apply_timestep(timestep=timestep)
